@@ -222,7 +222,20 @@ def replay_file(beh, trace, only_bad=False, timeout=900):
             raise ToolError("harness failed before running anything:\n" + r.stderr[-2000:])
         crashes.append({"line": line, "rc": r.returncode, "stderr": r.stderr[-400:]})
         with open(trace, "a") as f:
-            f.write(json.dumps({"ev": "Crash", "rc": r.returncode, "now": 0, "line": line}) + "\n")
+            if r.returncode == 4:
+                # the harness's watchdog: a call of this behaviour did not return
+                with open(beh) as bf:
+                    for i, l in enumerate(bf):
+                        if i == line:
+                            b = json.loads(l)
+                            cj = dict(b["cfg"], ev="Config", id=b.get("id", line))
+                            for k, d in (("init_cap", -1), ("via_new", False), ("lean", False), ("seed", 0)):
+                                cj.setdefault(k, d)
+                            f.write(json.dumps(cj) + "\n")
+                            break
+                f.write(json.dumps({"ev": "Timeout", "what": "a call did not return", "now": 0, "line": line}) + "\n")
+            else:
+                f.write(json.dumps({"ev": "Crash", "rc": r.returncode, "now": 0, "line": line}) + "\n")
         skip = line + 1
         if len(crashes) > 50:
             break
